@@ -327,3 +327,28 @@ func instrsOf(f *ssa.Function, visit func(ssa.Instruction)) {
 		}
 	}
 }
+
+// unconv strips value-preserving conversions (Convert, MultiConvert, ChangeType).
+func unconv(v ssa.Value) ssa.Value {
+	for i := 0; i < 6; i++ {
+		switch x := v.(type) {
+		case *ssa.Convert:
+			v = x.X
+		case *ssa.MultiConvert:
+			v = x.X
+		case *ssa.ChangeType:
+			v = x.X
+		default:
+			return v
+		}
+	}
+	return v
+}
+
+// originFn returns the generic origin of an instantiated function.
+func originFn(f *ssa.Function) *ssa.Function {
+	if f != nil && f.Origin() != nil {
+		return f.Origin()
+	}
+	return f
+}
